@@ -1,4 +1,5 @@
 import MicroHttp.Props.C10
+import MicroHttp.Props.Tables
 #print axioms MicroHttp.C10.inv_new
 #print axioms MicroHttp.C10.requests_inv
 #print axioms MicroHttp.C10.respond_inv
@@ -9,3 +10,6 @@ import MicroHttp.Props.C10
 #print axioms MicroHttp.C10.reaped
 #print axioms MicroHttp.C10.closed_released_when_answered
 #print axioms MicroHttp.C10.only_done_are_dropped
+#print axioms MicroHttp.Tables.max_connections
+#print axioms MicroHttp.Tables.capacity_test_is_equality
+#print axioms MicroHttp.Tables.server_full_message
